@@ -208,3 +208,18 @@ async fn verif_f3b_generation_resize_oom_replay() {
     let result = call_vm!(peer_vm_1, <_>::default(), script, wrong_data, "");
     println!("ret_code = {}", result.ret_code);
 }
+
+// F19: a non-ASCII letter in a lens made the lambda lexer slice inside a char (lambda_ast_lexer.rs:126): the whole interpreter
+// panicked on a script alone. After the fix the script is executed (the letter is a legal field name) or rejected, never a panic.
+#[tokio::test]
+async fn verif_f19_non_ascii_letter_in_lens_replay() {
+    let vm_peer_id_1 = "vm_peer_id_1";
+    let mut peer_vm_1 = create_avm(set_variable_call_service(json!({"é": 1})), vm_peer_id_1).await;
+    let script = r#"
+        (seq
+            (call "vm_peer_id_1" ("" "") [] x)
+            (call "vm_peer_id_1" ("" "") [x.$.é] y)
+        )"#.to_string();
+    let result = call_vm!(peer_vm_1, <_>::default(), script, "", "");
+    println!("ret_code = {} {}", result.ret_code, result.error_message);
+}
